@@ -5,6 +5,8 @@ from mc import core, det, vnet, fe, xstate, sse
 PROPERTY = 'C11'
 ENGINE = 'E2 explicit-state search (BFS to fixpoint + all histories to depth k, no dedup) over the real client Service (fresh object per operation, CLI style) against a live server on the E3 virtual network'
 LEVEL = 'model_checking'
+DIRECTED_ADDITIONS = 'the same model through frontend/client/commands.py, create-again, two uninstantiable configurations, create-matrix over all nine schemes'      # members added during the seeded-change campaign (DESIGN 7); counted under their own vacuity counters
+
 ALPHABET = ['create', 'create-invalid', 'create-invalid2', 'create-again', 'genkey', 'encrypt', 'upload-config', 'upload-index', 'search']
 DEPTH = {'quick': 5, 'thorough': 6}
 B_CREATED, B_CFG_UP, B_KEY, B_ENC, B_IDX_UP = 1, 2, 4, 8, 16
@@ -12,6 +14,12 @@ NO_SID = 'f' * 64
 
 
 def describe(tier):
+    d = _describe(tier)
+    d['rule'] = d['rule'] + ' Directed additions: ' + DIRECTED_ADDITIONS + '.'
+    return d
+
+
+def _describe(tier):
     return {
         'rule': 'state = history of client operations (incl. create-again: the create command given the existing service\'s own salted configuration), each executed CLI-style by a client object freshly loaded from disk (Service(sid) ... '
                 'close_service()) against a live server on the virtual network; alphabet = {create(valid cfg), create(cfg the scheme rejects), '
